@@ -66,7 +66,7 @@ def make_case(rng, big=False):
         gids = []
     having = None
     if gk != "none" and want_having:
-        hf = rng.choice(["avg", "sum", "min", "max", "count", "count0"]) if mtypes[0] != "String" else rng.choice(["count", "count0"])
+        hf = rng.choice(["avg", "sum", "min", "max", "count", "count0", "count0"]) if mtypes[0] != "String" else rng.choice(["count", "count0"])
         thr = rng.choice([0, 1, 2, 3, 5]) if hf.startswith("count") else rng.choice([0, 1.5, 3, 10, -1])
         having = [hf, rng.choice([">", ">=", "<", "=", "<>"]), thr]
     aggr_items = None
@@ -139,6 +139,7 @@ def model_run(case):
     any_null = any(v is None for r in case["rows"] for v in r[nid:])
     out = {}
     unspec = False
+    skipkeys = set()
     for key, g in groups.items():
         cols = [[model.num_in(r[nid + j]) for r in g] for j in range(nme)]
         if any(all(v is None for v in c) for c in cols):
@@ -147,11 +148,11 @@ def model_run(case):
             hf, op, thr = case["having"]
             hv = agg_value("count" if hf.startswith("count") else hf, cols[0], nme > 1 and any_null and hf.startswith("count"))
             if hv == "UNSPEC":
-                unspec = True
+                skipkeys.add(key)       # this group alone is undecided; the other groups still are
                 continue
             cond = model.apply(op, [hv, model.num_in(thr)])
             if cond is model.UNSPEC:
-                unspec = True
+                skipkeys.add(key)
                 continue
             meta["having"].add({True: "T", False: "F", None: "N"}[cond])
             if cond is not True:
@@ -163,12 +164,13 @@ def model_run(case):
         else:
             vals = [agg_value(case["agg"], c) for c in cols]
         if any(v == "UNSPEC" for v in vals):
-            unspec = True
+            skipkeys.add(key)
             continue
         out[key] = vals
-    if unspec:
+    if unspec or (skipkeys and not gids):
         return "UNSPEC", meta
-    return (gids, out), meta
+    meta["undecided_groups"] = len(skipkeys)
+    return (gids, out, skipkeys), meta
 
 
 def render(case):
@@ -212,7 +214,7 @@ def run_case(case, emit):
     if exp == "UNSPEC":
         emit({"v": "inc", "why": "model unspecified"})
         return
-    gids, out = exp
+    gids, out, skipkeys = exp
     ds = res["DS_r"]
     got_ids = [n for n, c in ds.components.items() if c.role.value == "Identifier"]
     if sorted(got_ids) != sorted(gids):
@@ -221,6 +223,9 @@ def run_case(case, emit):
     cols, got, nk = eng.ds_rows(ds)
     perm = [gids.index(n) for n in got_ids]
     want = [tuple(k[i] for i in perm) + tuple(model.out(v) for v in vals) for k, vals in out.items()]
+    if skipkeys:
+        sk = {tuple(k[i] for i in perm) for k in skipkeys}
+        got = [r for r in got if tuple(r[:len(gids)]) not in sk]
     d = eng.same_rowset(got, want, len(gids) or None, tol=1e-7)
     if d:
         emit({"v": "viol", "b": bucket, "mech": f"wrong-aggregate/{label if case['form'] == 'standalone' else 'aggr'}/{case['gk']}/having={'yes' if case['having'] else 'no'}",
